@@ -73,7 +73,9 @@ func TestC07(t *testing.T) {
 
 		// fresh
 		outDir := filepath.Join(dir, "out")
-		ar := ApplyFresh(or.Patch, oldDir, outDir, ApplyOpts{})
+		// the old build is read through a pool whose readers may return short reads (bsdiff series go
+		// through the lrufile cache, rsync series through the block copier)
+		ar := ApplyFresh(or.Patch, oldDir, outDir, ApplyOpts{PoolSlice: drawSlicer(rt, "oldpoolslice")})
 		if ar.Panic != "" || ar.Err != nil {
 			Violation(rt, "C07/apply-fresh-failed", "applying the optimized patch (fresh) failed at %s: %+v %s (%s)", ar.Stage, ar.Err, ar.Panic, kd)
 			return
